@@ -23,7 +23,7 @@ static void enter(NL& n, int id, bool may_interleave = true) {
     if (n.limit && n.live >= (int)n.limit) vf_fail("node %s (concurrency limit %zu) runs %d bodies at once", n.name, n.limit, n.live + 1);
     n.live++; if (n.live > n.maxlive) n.maxlive = n.live;
     int me = bodies++; if (me == cancel_at) G->cancel();
-    if (may_interleave) vtbb::interleave();   // not inside lightweight bodies: they run while the sender holds its successor-cache lock, so another thread that needs that lock waits for them
+    if (may_interleave) { vtbb::nested(); vtbb::interleave(); }   // not inside lightweight bodies: they run while the sender holds its successor-cache lock, so another thread that needs that lock waits for them
     if (me == throw_at) { n.live--; throw Boom{id}; }
 }
 static void leave(NL& n) { n.live--; }
